@@ -202,13 +202,14 @@ Definition bad_input (i : str) : bool := is_abs i || tries_to_escape i.
 Definition has_bad_input (g : nodes) : bool :=
   existsb (fun t => existsb bad_input (t_inputs t)) (targets_of g).
 
-(* checkOutputsAreWithinRepository: ranges over Target.FileOutputs() only *)
+(* checkOutputsAreWithinRepository: ranges over pathOutputs(target), the identifiers of the
+   file and dir outputs (bin output included); docker outputs are image tags *)
 Definition bad_path (rootc : list str) (pkg id : str) : bool :=
   is_abs id || negb (is_within_workspace rootc pkg id).
-Definition is_file (o : output) : bool := match o_type o with OFile => true | _ => false end.
-Definition file_outputs (t : target) : list str := map o_id (filter is_file (all_outputs t)).
+Definition is_path (o : output) : bool := match o_type o with ODocker => false | _ => true end.
+Definition path_outputs (t : target) : list str := map o_id (filter is_path (all_outputs t)).
 Definition has_bad_output (rootc : list str) (g : nodes) : bool :=
-  existsb (fun t => existsb (bad_path rootc (lpkg (t_label t))) (file_outputs t)) (targets_of g).
+  existsb (fun t => existsb (bad_path rootc (lpkg (t_label t))) (path_outputs t)) (targets_of g).
 
 Definition has_test_nocmd (g : nodes) : bool :=
   existsb (fun t => is_test t && t_nocmd t) (targets_of g).
@@ -364,14 +365,10 @@ Definition defect_free (rootc : list str) (g : nodes) : Prop :=
 Definition plain_comp (c : str) : Prop := c <> [] /\ ~ In ch_slash c /\ c <> dot /\ c <> dotdot.
 Definition clean_root (rootc : list str) : Prop := rootc <> [] /\ Forall plain_comp rootc.
 
-(* G1: directory outputs satisfy the rule the code applies to file outputs only *)
-Definition dir_outputs_checked (rootc : list str) (g : nodes) : Prop :=
-  forall t o, In (NTarget t) g -> In o (all_outputs t) -> o_type o = ODir -> output_ok rootc t o.
-
-(* G2: <pkg>/<id> read as a relative path from the workspace root never leaves the root and
-   names something below it (not the root itself) *)
+(* G2: <pkg>/<id> read as a relative path from the workspace root never leaves the root on the
+   way (it may end AT the root: dir::.. from a top-level package) *)
 Definition plain_output (t : target) (o : output) : Prop :=
-  exists c cs, resolve_from [] (split_slash (lpkg (t_label t)) ++ split_slash (o_id o)) = Some (c :: cs).
+  resolve_from [] (split_slash (lpkg (t_label t)) ++ split_slash (o_id o)) <> None.
 Definition plain_outputs (g : nodes) : Prop :=
   forall t o, In (NTarget t) g -> In o (all_outputs t) -> o_type o <> ODocker -> plain_output t o.
 
@@ -384,7 +381,3 @@ Definition no_self_overlap (rootc : list str) (g : nodes) : Prop :=
 Definition rel_pkgs (g : nodes) : Prop := forall t, In (NTarget t) g -> is_abs (lpkg (t_label t)) = false.
 Definition rel_outputs (g : nodes) : Prop :=
   forall t o, In (NTarget t) g -> In o (all_outputs t) -> o_type o <> ODocker -> is_abs (o_id o) = false.
-
-(* the part of outputs_ok the code does check: FILE outputs (bin output included) *)
-Definition file_outputs_ok (rootc : list str) (g : nodes) : Prop :=
-  forall t o, In (NTarget t) g -> In o (all_outputs t) -> o_type o = OFile -> output_ok rootc t o.
